@@ -1186,6 +1186,8 @@ fn big_ops(b: &BigSpec, keys: &[Key], r: &mut Rng, heavy: bool) -> (Vec<Op>, Vec
         }
         if round == 0 {
             // mutations in the big trie: remove, re-insert through both doors, new keys next to old ones, then housekeeping and a bulk rebuild
+            lit(&mut ops, &mut js, SHRINK, vec![]);
+            if !heavy { lit(&mut ops, &mut js, FSAWALK, vec![]); }
             for s in 0..(if heavy { 12 } else { 30 }) {
                 let i = r.below(keys.len() as u64) as usize;
                 push(&mut ops, &mut js, REM, i, None, &[]);
@@ -1330,7 +1332,7 @@ pub fn run(args: &Args) {
     let phase = |p: &str| only.as_deref().map(|o| o.split(',').any(|x| x == p)).unwrap_or(true);
     let tr = |what: &str| { if trace { println!("[c05 {:8.2}s] {}", t0.elapsed().as_secs_f64(), what); } };
     let mut cx = Ctx {
-        sum: Summary::new("C05", "histories of insert/remove/contains/len/keys/keys_with_prefix/accepts+lookup/longest_prefix and of the secondary entry points (insert_and_get_node_id / Trie::insert / insert_with_token / bulk_insert, Trie::contains / lookup / *_with_token / parallel_contains / parallel_process, PrefixIterable / parallel_prefix_search, root+transitions+is_final walk, lookup_node_id+restore_string, double-array accessors, clone, shrink_to_fit / refresh_replicas, bulk rebuild through every builder, clear) over a key pool built to share structure (the empty key, a stem and all its prefixes, siblings differing in the last byte, 0x00/0xFF extensions, random tails, 33..70-byte stems beyond the 32/64-byte path limits, 254..300-byte keys around the LOUDS length limit); after every mutation len, is_empty and contains of every key of the history are compared with a BTreeSet, every history ends with a full dump; all histories of 1..3 mutations over {eps,a,ab,b,a\\0} enumerated on every cell, the staged family (mutation, housekeeping or bulk step, mutation through the second door) on every cell, big key sets (dense3: up to 70000 keys of 1..3 bytes; long: 400 keys of 200..255 bytes, more than 2^16 nodes / slots / record bytes) loaded through the bulk door; configurations of the varied cells drawn from boundary values of every field; non-trivial = at least two mutations"),
+        sum: Summary::new("C05", "histories of insert/remove/contains/len/keys/keys_with_prefix/accepts+lookup/longest_prefix and of the secondary entry points (insert_and_get_node_id / Trie::insert / insert_with_token / bulk_insert, Trie::contains / lookup / *_with_token / parallel_contains / parallel_process, PrefixIterable / parallel_prefix_search, root+transitions+is_final walk, lookup_node_id+restore_string, double-array accessors, clone, shrink_to_fit / refresh_replicas, bulk rebuild through every builder, clear) over a key pool built to share structure (the empty key, a stem and all its prefixes, siblings differing in the last byte, 0x00/0xFF extensions, random tails, 33..70-byte stems beyond the 32/64-byte path limits, 254..300-byte keys around the LOUDS length limit); after every mutation len, is_empty and contains of every key of the history are compared with a BTreeSet, every history ends with a full dump; all histories of 1..3 mutations over {eps,a,ab,b,a\\0} enumerated on every cell, the staged family (mutation, housekeeping or bulk step, mutation through the second door) on every cell, big key sets (dense3: up to 70000 keys of 1..3 bytes; long: 450 keys of 200..255 bytes, more than 2^16 nodes / slots / record bytes) loaded through the bulk door; configurations of the varied cells drawn from boundary values of every field; non-trivial = at least two mutations"),
         shards: CoqShards::new(HEADER, 150),
         budget: if q { [600, 150, 250, 40, 300, 160] } else { [4000, 1500, 1500, 200, 2500, 1500] },
         used: [0; 6],
@@ -1386,7 +1388,7 @@ pub fn run(args: &Args) {
     }
     tr("staged done");
     // big key sets, described by (kind, n, seed)
-    let bigs: Vec<(&str, usize)> = if q { vec![("dense3", 300), ("dense3", 70000), ("long", 400)] } else { vec![("dense3", 255), ("dense3", 256), ("dense3", 300), ("dense3", 65535), ("dense3", 65536), ("dense3", 70643), ("long", 400), ("long", 700)] };
+    let bigs: Vec<(&str, usize)> = if q { vec![("dense3", 300), ("dense3", 70000), ("long", 450)] } else { vec![("dense3", 255), ("dense3", 256), ("dense3", 300), ("dense3", 65535), ("dense3", 65536), ("dense3", 70643), ("long", 450), ("long", 800)] };
     for (bi, (kind, n)) in bigs.into_iter().enumerate() {
         if !phase("big") { break; }
         let b = BigSpec { kind: kind.to_string(), n, seed: args.seed.wrapping_mul(31).wrapping_add(bi as u64) };
@@ -1408,6 +1410,10 @@ pub fn run(args: &Args) {
             }
         }
         cx.sum.dist_max("max_big_key_set", keys.len() as u64);
+        // nodes of the uncompressed trie of the key set = its distinct non-empty prefixes (+ the root)
+        let mut pre: std::collections::HashSet<&[u8]> = std::collections::HashSet::new();
+        for k in &keys { for c in 1..=k.len() { if !pre.insert(&k[..c]) && c < k.len() { continue; } } }
+        cx.sum.dist_max(&format!("trie_nodes_of_big_key_set/{}", kind), pre.len() as u64 + 1);
     }
     // generated
     let rounds = if q { 400 } else { 5000 };
